@@ -115,6 +115,15 @@ def run(pid, tier, seed):
         for n in V.reject_lines(res):
             e = json.loads(lines[n - 1])
             verdict.violation(classify(e), "event rejected by CivilTrace: " + lines[n - 1][:300], e)
+    fobs = None
+    if pid == "C17":
+        # the same functions as format() uses them: %a %A %j %u %w %U %W on instants up to the int64 limits
+        from checks import format as fmtcheck
+        wf = [b"%a", b"%A", b"%j", b"%u", b"%w", b"%U", b"%W", b"%Y %a %j", b"%A, day %j, week %U/%W, weekday %u/%w of %Y-%m-%d", b"%G-W%V-%u %a"]
+        fobs = fmtcheck.observe_formats(pid, verdict, work, wf, tier, seed, "FormatWeekday")
+        events += fobs[0]
+        st += fobs[1]
+        tr += fobs[2]
     V.log("[%s] %d events validated, %d rejected" % (pid, events, len(verdict.violations) + len(verdict.known)))
     ev = _evidence(pid, tier, seed, t0, mc_states + st, mc_trans + tr, len(shards), events, distinct, samples, assumptions)
     ev["coverage"]["exhaustive"] = False
